@@ -1,5 +1,186 @@
 package main
 
-import "fmt"
+// `gvc selftest`: the must-fail / must-pass corpus. Every case is a patch to /repo that is applied through an
+// overlay (no copy of the repository, nothing written into /repo) and the property check named by the case is run on
+// it. A must-fail case has to end in exit status 1 with a VIOLATION line, a must-pass case in exit status 0.
+// Run on every change of the engine or of the contracts; it is not part of the registered quick commands.
 
-func runSelftest(args []string) int { fmt.Println("selftest: TODO"); return 0 }
+import (
+	"encoding/json"
+	"flag"
+	"fmt"
+	"os"
+	"os/exec"
+	"path/filepath"
+	"sort"
+	"strings"
+	"sync"
+)
+
+type selfCase struct {
+	Name     string `json:"name"`
+	Property string `json:"property"`
+	Patch    string `json:"patch"`  // path relative to the verif directory
+	Expect   string `json:"expect"` // "fail" | "pass"
+	Why      string `json:"why"`
+}
+
+func runSelftest(args []string) int {
+	fs := flag.NewFlagSet("selftest", flag.ExitOnError)
+	only := fs.String("only", "", "run only cases whose name contains this")
+	par := fs.Int("j", 1, "cases in parallel (more than 1 loads the machine enough to make slow obligations time out)")
+	fs.Parse(args)
+	vd := filepath.Dir(specDirDefault())
+	var cases []selfCase
+	data, err := os.ReadFile(filepath.Join(vd, "selftest", "cases.json"))
+	if err == nil {
+		err = json.Unmarshal(data, &cases)
+	}
+	if err != nil {
+		fmt.Println("selftest: cannot read selftest/cases.json:", err)
+		return 2
+	}
+	// the confirmed seeded changes of claimed properties are must-fail cases as well (unless recorded as not detectable)
+	claimed := map[string]bool{}
+	var manifest struct {
+		Checks []struct {
+			PropertyID string `json:"property_id"`
+		} `json:"checks"`
+	}
+	if d, err := os.ReadFile(filepath.Join(vd, "MANIFEST.json")); err == nil {
+		json.Unmarshal(d, &manifest)
+		for _, c := range manifest.Checks {
+			claimed[c.PropertyID] = true
+		}
+	}
+	seeds, _ := filepath.Glob(filepath.Join(vd, "seeded", "*", "patch.diff"))
+	sort.Strings(seeds)
+	for _, s := range seeds {
+		name := filepath.Base(filepath.Dir(s))
+		prop := strings.Split(name, "-")[0]
+		if !claimed[prop] {
+			continue
+		}
+		exp := "fail"
+		if d, err := os.ReadFile(filepath.Join(filepath.Dir(s), "meta.json")); err == nil {
+			var m struct {
+				Undetectable string `json:"undetectable_because"`
+			}
+			json.Unmarshal(d, &m)
+			if m.Undetectable != "" {
+				continue
+			}
+		}
+		rel, _ := filepath.Rel(vd, s)
+		cases = append(cases, selfCase{Name: "seeded/" + name, Property: prop, Patch: rel, Expect: exp, Why: "seeded change"})
+	}
+	type outcome struct {
+		c    selfCase
+		ok   bool
+		info string
+	}
+	results := make([]outcome, len(cases))
+	var wg sync.WaitGroup
+	sem := make(chan struct{}, *par)
+	for i, c := range cases {
+		if *only != "" && !strings.Contains(c.Name, *only) {
+			results[i] = outcome{c: c, ok: true, info: "skipped"}
+			continue
+		}
+		wg.Add(1)
+		go func(i int, c selfCase) {
+			defer wg.Done()
+			sem <- struct{}{}
+			defer func() { <-sem }()
+			ok, info := runSelfCase(vd, c)
+			results[i] = outcome{c, ok, info}
+		}(i, c)
+	}
+	wg.Wait()
+	bad := 0
+	for _, r := range results {
+		if r.info == "skipped" {
+			continue
+		}
+		status := "ok  "
+		if !r.ok {
+			status = "BAD "
+			bad++
+		}
+		fmt.Printf("%s %-28s %-4s expect=%-4s %s\n", status, r.c.Name, r.c.Property, r.c.Expect, r.info)
+	}
+	fmt.Printf("selftest: %d cases, %d not as expected\n", len(cases), bad)
+	if bad > 0 {
+		return 1
+	}
+	return 0
+}
+
+func runSelfCase(vd string, c selfCase) (bool, string) {
+	dir, err := os.MkdirTemp("", "gvc-self-")
+	if err != nil {
+		return false, err.Error()
+	}
+	defer os.RemoveAll(dir)
+	patch := filepath.Join(vd, c.Patch)
+	pd, err := os.ReadFile(patch)
+	if err != nil {
+		return false, err.Error()
+	}
+	// files touched by the patch
+	repl := map[string]string{}
+	for _, l := range strings.Split(string(pd), "\n") {
+		if strings.HasPrefix(l, "+++ b/") {
+			rel := strings.TrimSpace(l[len("+++ b/"):])
+			src := filepath.Join("/repo", rel)
+			dst := filepath.Join(dir, strings.ReplaceAll(rel, "/", "__"))
+			data, err := os.ReadFile(src)
+			if err != nil {
+				return false, "patch touches a file that does not exist: " + rel
+			}
+			os.WriteFile(dst, data, 0o644)
+			repl[src] = dst
+		}
+	}
+	// apply the patch to the copies: build a mirror tree so that `patch -p1` finds them
+	mirror := filepath.Join(dir, "tree")
+	for src := range repl {
+		rel, _ := filepath.Rel("/repo", src)
+		os.MkdirAll(filepath.Dir(filepath.Join(mirror, rel)), 0o755)
+		data, _ := os.ReadFile(src)
+		os.WriteFile(filepath.Join(mirror, rel), data, 0o644)
+	}
+	cmd := exec.Command("patch", "-p1", "-s", "-i", patch)
+	cmd.Dir = mirror
+	if out, err := cmd.CombinedOutput(); err != nil {
+		return false, "patch does not apply: " + truncate(string(out), 200)
+	}
+	for src := range repl {
+		rel, _ := filepath.Rel("/repo", src)
+		repl[src] = filepath.Join(mirror, rel)
+	}
+	ov := filepath.Join(dir, "overlay.json")
+	os.WriteFile(ov, mustJSON(repl), 0o644)
+	exe, _ := os.Executable()
+	run := exec.Command(exe, "check", "-p", c.Property, "-no-evidence", "-q", "-overlay", ov, "-verif", vd, "-replays", filepath.Join(dir, "replays"))
+	out, _ := run.CombinedOutput()
+	code := run.ProcessState.ExitCode()
+	viol := strings.Count(string(out), "VIOLATION")
+	confirmed := 0
+	for _, l := range strings.Split(string(out), "\n") {
+		if strings.HasPrefix(l, "VIOLATION") && !strings.Contains(l, "no-failing-input-found") {
+			confirmed++
+		}
+	}
+	info := fmt.Sprintf("exit=%d violations=%d (with failing input: %d)", code, viol, confirmed)
+	switch c.Expect {
+	case "fail":
+		return code == 1 && viol > 0, info
+	case "pass":
+		if code != 0 {
+			info += " :: " + truncate(strings.ReplaceAll(string(out), "\n", " | "), 300)
+		}
+		return code == 0, info
+	}
+	return false, "bad expectation"
+}
